@@ -273,10 +273,15 @@ impl<T: RealNumber + Sum> KMeans<T> {
             let mut index = 0;
             while index < n {
                 cost += d[index];
-                if cost >= cutoff {
+                // a row at distance zero from the chosen centroids has zero selection
+                // probability; without this test a cutoff of exactly 0 picks row 0 again
+                if cost >= cutoff && d[index] > T::zero() {
                     break;
                 }
                 index += 1;
+            }
+            if index >= n {
+                index = n - 1;
             }
 
             data.copy_row_as_vec(index, &mut centroid);
